@@ -455,11 +455,14 @@ Proof.
     + rewrite IH, !orb_assoc. reflexivity.
 Qed.
 
-(* computation over the generated decision rows: the early exit of the scan is `&&` *)
+(* computation over the generated decision rows: the early exit of the scan is `&&`, an expired
+   connection is released iff it has neither borrows nor data, kept on disconnect iff data or borrows *)
 Lemma brk_code_is_and : brk_code = andb.
 Proof. vm_compute. reflexivity. Qed.
-Lemma decisions_as_modelled : remove_if_no_borrows = true /\ keep_if_data_or_borrows = true.
-Proof. vm_compute. split; reflexivity. Qed.
+Lemma remove_rule_is : remove_rule_code = (fun d b => negb b && negb d).
+Proof. vm_compute. reflexivity. Qed.
+Lemma keep_rule_is : keep_if_data_or_borrows = true.
+Proof. vm_compute. reflexivity. Qed.
 
 Lemma scan_spec : forall chs, scan chs = (existsb fst chs, existsb (fun c => Nat.ltb 0 (snd c)) chs).
 Proof. intros chs. unfold scan. rewrite brk_code_is_and, scan_from_and. reflexivity. Qed.
@@ -470,33 +473,51 @@ Proof.
   assert (existsb f l = true) by (apply existsb_exists; exists x; split; assumption). congruence.
 Qed.
 
+(* a rule that releases only when nothing is borrowed *)
+Lemma removed_no_borrow_with : forall (rule : bool -> bool -> bool), (forall d b, rule d b = true -> b = false) ->
+  forall chs c m, poll_expired_with rule chs c m = XRemove ->
+  (forall ch, In ch chs -> snd ch = 0) /\ fst (nth c chs (false, 0)) = false.
+Proof.
+  intros rule Hrule chs c m. unfold poll_expired_with. destruct (nth c chs (false, 0)) as [cd cb] eqn:En.
+  destruct (Nat.eqb cb m); [discriminate|]. destruct cd; [discriminate|].
+  rewrite scan_spec. destruct (rule _ _) eqn:Er; [|discriminate]. intros _.
+  apply Hrule in Er. split; [|reflexivity]. intros ch Hin.
+  pose proof (existsb_false_all _ _ Er ch Hin) as Hf. cbn beta in Hf. apply Nat.ltb_ge in Hf. lia.
+Qed.
+
 Lemma expired_removed_no_borrow : forall chs c m, poll_expired chs c m = XRemove ->
   (forall ch, In ch chs -> snd ch = 0) /\ fst (nth c chs (false, 0)) = false.
 Proof.
-  intros chs c m. unfold poll_expired. destruct (nth c chs (false, 0)) as [cd cb] eqn:En.
-  destruct (Nat.eqb cb m); [discriminate|]. destruct cd; [discriminate|].
-  rewrite scan_spec. destruct decisions_as_modelled as [-> _].
-  destruct (existsb (fun c0 => Nat.ltb 0 (snd c0)) chs) eqn:E; [discriminate|]. intros _.
-  split; [|reflexivity]. intros ch Hin.
-  pose proof (existsb_false_all _ _ E ch Hin) as Hf. cbn beta in Hf. apply Nat.ltb_ge in Hf. lia.
+  unfold poll_expired. rewrite remove_rule_is. apply removed_no_borrow_with.
+  intros d b E. apply andb_true_iff in E. destruct E as [E _]. apply negb_true_iff in E. exact E.
 Qed.
 
 Lemma keep_on_disconnect_iff : forall chs,
   keep_on_disconnect chs = true <-> exists ch, In ch chs /\ (fst ch = true \/ 0 < snd ch).
 Proof.
-  intros chs. unfold keep_on_disconnect. rewrite scan_spec. destruct decisions_as_modelled as [_ ->].
+  intros chs. unfold keep_on_disconnect. rewrite scan_spec, keep_rule_is.
   rewrite orb_true_iff, !existsb_exists. split.
   - intros [[ch [Hin Hf]]|[ch [Hin Hf]]]; exists ch; split; try assumption; [left; exact Hf|right; apply Nat.ltb_lt; exact Hf].
   - intros [ch [Hin [Hf|Hf]]]; [left|right]; exists ch; split; try assumption. apply Nat.ltb_lt; exact Hf.
 Qed.
 
-(* the clause "... and no delivered, unreceived chunk of ANOTHER channel is discarded" is false of the code *)
-Definition expired_keeps_data_full : Prop :=
-  forall chs c m, poll_expired chs c m = XRemove -> forall ch, In ch chs -> fst ch = false.
-Lemma expired_keeps_data_refuted : ~ expired_keeps_data_full.
+(* "... and no delivered, unreceived chunk of ANY channel is discarded": holds since fix 9915d96 *)
+Definition expired_keeps_data_with (rule : bool -> bool -> bool) : Prop :=
+  forall chs c m, poll_expired_with rule chs c m = XRemove -> forall ch, In ch chs -> fst ch = false.
+Definition expired_keeps_data_full : Prop := expired_keeps_data_with remove_rule_code.
+Lemma expired_keeps_data : expired_keeps_data_full.
+Proof.
+  unfold expired_keeps_data_full. rewrite remove_rule_is. intros chs c m. unfold poll_expired_with.
+  destruct (nth c chs (false, 0)) as [cd cb]. destruct (Nat.eqb cb m); [discriminate|]. destruct cd; [discriminate|].
+  rewrite scan_spec. destruct (existsb fst chs) eqn:Ed.
+  - rewrite andb_false_r. discriminate.
+  - intros _ ch Hin. exact (existsb_false_all _ _ Ed ch Hin).
+Qed.
+(* the condition before the fix (`if !has_borrows`) released a connection with data on another channel *)
+Lemma expired_keeps_data_old_refuted : ~ expired_keeps_data_with remove_if_old.
 Proof.
   intros H. specialize (H [(true, 0); (false, 0)] 1 2).
-  assert (E : poll_expired [(true, 0); (false, 0)] 1 2 = XRemove) by (vm_compute; reflexivity).
+  assert (E : poll_expired_with remove_if_old [(true, 0); (false, 0)] 1 2 = XRemove) by (vm_compute; reflexivity).
   specialize (H E (true, 0) (or_introl eq_refl)). discriminate H.
 Qed.
 
